@@ -102,6 +102,11 @@ pub assume_specification<T> [core::option::Option::<T>::or] (a: Option<T>, b: Op
     ensures r == (match a { Some(x) => Some(x), None => b }),
 ;
 
+pub assume_specification<T, U, F: FnOnce(T) -> U> [core::option::Option::<T>::map_or] (a: Option<T>, default: U, f: F) -> (r: U)
+    where T: core::marker::Destruct, U: core::marker::Destruct, F: core::marker::Destruct,
+    requires a is Some ==> f.requires((a->Some_0,)),
+    ensures a is None ==> r == default, a is Some ==> f.ensures((a->Some_0,), r),
+;
 // the options attached to a tree node (its benchmark's or group's attribute options), uninterpreted
 pub uninterp spec fn opts_of(c: EntryTree) -> Option<BenchOptions<'static>>;
 impl<'a> EntryTree<'a> {
@@ -203,9 +208,10 @@ def list_file(S: Sources, prefix: str = "c14"):
         (pin("for arg in args"), "for arg in it2: args", 1),
     ]
     subst.append((r"/\*LOOPINV\*/", "\n            invariant 0 <= idx <= tree@.len(), log == level_events(*self, tree@, parent_ignore, idx as int),\n       ", 1))
-    # the closure gets its (obvious) contract, if the code still uses one
-    if re.search(pin(PIN_CLOSURE), f_list.body_text()):
-        subst.append((pin(PIN_CLOSURE), ".and_then(|options: &BenchOptions| -> (r0: Option<bool>) ensures r0 == options.ignore { options.ignore })", 1))
+    # closures reading the `ignore` field get their (obvious) contract, wherever the code uses one
+    rx_closure = r"\|\s*options\s*\|\s*options\s*\.\s*ignore\b"
+    if re.search(rx_closure, f_list.body_text()):
+        subst.append((rx_closure, "|options: &BenchOptions| -> (r0: Option<bool>) ensures r0 == options.ignore { options.ignore }", "any"))
     sec = code_fn(dv, f_list, "Divan::run_tree_list", pair=["verif_c14::terse_list_matches_run"], subst=subst,
                   inserts=[(r"let mut idx: usize = 0;", "before", "let ghost mut log: Seq<Ev> = Seq::empty();" + ("" if has_parent else " let ghost parent_ignore: Option<bool> = None;"), 1),
                            (r"for arg in it2: args", "before", "let ghost log0 = log;", 1)],
